@@ -484,7 +484,7 @@ pub fn space_s_range(min_n: usize, k: usize, inner: usize, f: &mut dyn FnMut(u64
 // that one loop iteration becomes a single simultaneous assignment with up to k+1 live values
 // (> 11 of them => stack temporaries in the JIT). Layout: c0 counter, c1 carrier, c2.. data.
 
-pub const W_FORMS: [&str; 10] = [
+pub const W_FORMS: [&str; 11] = [
     "[-<+>]",            // copy (default)
     "[-<++>]",           // x2
     "[-<+++>]",          // x3
@@ -494,7 +494,8 @@ pub const W_FORMS: [&str; 10] = [
     "[-<+>]<+++++>",     // + constant
     "[---<+>]",          // divide by 3 (trip count through the 2-adic inverse: huge immediates at 64 bit)
     "*",                 // product with the right neighbour (kept): d[j-1] += d[j]*d[j+1], via the scratch cell
-    "K",                 // copy, then add the constant 2*16^9 = 2^37 built by constant-foldable loops (wide immediate)
+    "K",                 // copy, then add the loop-invariant wide constant 2^37 (wide immediate at 64 bit)
+    "*K",                // product with the right neighbour, then add the wide constant: (a*b) + imm64
 ];
 
 pub const W_SCRIPTS: [&[u8]; 3] = [
@@ -512,6 +513,19 @@ pub fn w_program(k: usize, forms: &[usize]) -> Vec<u8> {
     for _ in 0..k {
         p.extend_from_slice(b",>");
     }
+    if forms.iter().any(|&f| W_FORMS[f] == "K" || W_FORMS[f] == "*K") {
+        // the wide constant 2*16^9 = 2^37, built once before the loop by constant-foldable loops in cells k+4 / k+5
+        p.extend_from_slice(b">>++");
+        for r in 0..9 {
+            if r % 2 == 0 {
+                p.extend_from_slice(b"[>++++++++++++++++<-]>");
+            } else {
+                p.extend_from_slice(b"[<++++++++++++++++>-]<");
+            }
+        }
+        // nine rounds end on cell k+5; back to cell k+2
+        p.extend_from_slice(b"<<<");
+    }
     for _ in 0..k + 2 {
         p.push(b'<');
     }
@@ -521,47 +535,52 @@ pub fn w_program(k: usize, forms: &[usize]) -> Vec<u8> {
     for (j, f) in forms.iter().take(k - 1).enumerate() {
         p.push(b'>');
         let a = (j + 3) as i32; // absolute position of the data cell being moved
-        match W_FORMS[*f] {
-            "*" => {
-                // multiplier: right neighbour, or the carrier for the last cell
-                let m = if j + 2 < k { a + 1 } else { 1 };
-                p.extend_from_slice(b"[-");
-                go(&mut p, a, m);
-                p.extend_from_slice(b"[-");
-                go(&mut p, m, a - 1);
-                p.push(b'+');
-                go(&mut p, a - 1, scratch);
-                p.push(b'+');
-                go(&mut p, scratch, m);
-                p.push(b']');
-                go(&mut p, m, scratch);
-                p.extend_from_slice(b"[-");
-                go(&mut p, scratch, m);
-                p.push(b'+');
-                go(&mut p, m, scratch);
-                p.push(b']');
-                go(&mut p, scratch, a);
-                p.push(b']');
-            }
-            "K" => {
-                p.extend_from_slice(b"[-<+>]");
-                go(&mut p, a, scratch);
-                p.extend_from_slice(b"++");
-                for r in 0..9 {
-                    if r % 2 == 0 {
-                        p.extend_from_slice(b"[>++++++++++++++++<-]>");
-                    } else {
-                        p.extend_from_slice(b"[<++++++++++++++++>-]<");
-                    }
-                }
-                // nine rounds end on scratch+1
-                p.extend_from_slice(b"[-");
-                go(&mut p, scratch + 1, a - 1);
-                p.push(b'+');
-                go(&mut p, a - 1, scratch + 1);
-                p.push(b']');
-                go(&mut p, scratch + 1, a);
-            }
+        let form = W_FORMS[*f];
+        let kc = (k + 5) as i32;
+        if form == "*" || form == "*K" {
+            // multiplier: right neighbour, or the carrier for the last cell
+            let m = if j + 2 < k { a + 1 } else { 1 };
+            p.extend_from_slice(b"[-");
+            go(&mut p, a, m);
+            p.extend_from_slice(b"[-");
+            go(&mut p, m, a - 1);
+            p.push(b'+');
+            go(&mut p, a - 1, scratch);
+            p.push(b'+');
+            go(&mut p, scratch, m);
+            p.push(b']');
+            go(&mut p, m, scratch);
+            p.extend_from_slice(b"[-");
+            go(&mut p, scratch, m);
+            p.push(b'+');
+            go(&mut p, m, scratch);
+            p.push(b']');
+            go(&mut p, scratch, a);
+            p.push(b']');
+        }
+        if form == "K" {
+            p.extend_from_slice(b"[-<+>]");
+        }
+        if form == "K" || form == "*K" {
+            // add the loop-invariant wide constant kept in cell k+5 (preserved through the scratch cell)
+            go(&mut p, a, kc);
+            p.extend_from_slice(b"[-");
+            go(&mut p, kc, a - 1);
+            p.push(b'+');
+            go(&mut p, a - 1, scratch);
+            p.push(b'+');
+            go(&mut p, scratch, kc);
+            p.push(b']');
+            go(&mut p, kc, scratch);
+            p.extend_from_slice(b"[-");
+            go(&mut p, scratch, kc);
+            p.push(b'+');
+            go(&mut p, kc, scratch);
+            p.push(b']');
+            go(&mut p, scratch, a);
+        }
+        match form {
+            "*" | "K" | "*K" => {}
             other => p.extend_from_slice(other.as_bytes()),
         }
     }
